@@ -58,8 +58,73 @@ def _post(case):
     return out, (None if out == exp else 'postprocess %r -> %r, expected %r' % (labels, out, exp))
 
 
+class _StubNet:
+    """stand-in network whose arg-max symbol for a line depends on that line and on the number of symbols it was fed: the table of the case"""
+
+    def __init__(self, table, vocab=4):
+        self.table, self.vocab = table, vocab
+
+        class _Dec:
+            @staticmethod
+            def infer(x, enc, is_cached=False):
+                # x: (steps, N, 1) fed tokens; enc: (1, N, 1) line ids
+                t = x.shape[0]
+                return torch.stack([torch.full((x.shape[1],), float(t)), enc[0, :, 0]], dim=1)
+        self.trans_decoder = _Dec()
+
+    def encode(self, lines):
+        ids = torch.round(lines[:, 0, 0, 0] * 255.0)
+        return ids.reshape(1, -1, 1)
+
+    def dec_embeder(self, tokens):
+        return tokens.float().unsqueeze(-1)
+
+    def pos_encoder(self, x):
+        return x
+
+    def dec_out_proj(self, z):
+        out = torch.zeros((z.shape[0], self.vocab))
+        for n in range(z.shape[0]):
+            t, line = int(z[n, 0].item()), int(z[n, 1].item())
+            seq = self.table[line]
+            out[n, seq[min(t - 1, len(seq) - 1)]] = 1.0
+        return out
+
+
+def _greedy(case):
+    import numpy as np
+    N, cap = int(case['N']), int(case['cap'])
+    table = [[int(v) for v in seq] for seq in case['samples']]
+
+    def run(ids):
+        e = object.__new__(TransformerEngineLineOCR)
+        e.device = torch.device('cpu')
+        e.characters = ['a', 'b', '\u200b', '']
+        e.sentence_boundary_ind, e.ignore_ind = 2, 3
+        e.net = _StubNet(table)
+        inp = np.zeros((len(ids), 3, 4, 4 * cap), dtype=np.uint8)
+        for i, n in enumerate(ids):
+            inp[i] = n
+        import contextlib, io
+        with contextlib.redirect_stdout(io.StringIO()), torch.no_grad():
+            outs, _ = e.transcribe_batch(inp, is_cached=True)
+        return [o.tolist() for o in outs]
+    together = run(list(range(N)))
+    bad = []
+    for n in range(N):
+        alone = run([n])[0]
+        if alone != together[n]:
+            bad.append('line %d: %r inside the batch, %r when decoded alone (network emits %r)' % (n, together[n], alone, table[n]))
+        if any(s in (2, 3) for s in together[n]):
+            bad.append('line %d: transcription %r contains the boundary / ignore symbol' % (n, together[n]))
+    return together, bad
+
+
 def replay(case):
     try:
+        if case['mode'] == 'greedy':
+            out, bad = _greedy(case)
+            return {'reproduced': bool(bad), 'detail': '; '.join(bad[:3]) or 'ok'}
         if case['mode'] == 'postprocess':
             out, bad = _post(case)
             return {'reproduced': bad is not None, 'detail': bad or 'ok'}
@@ -70,6 +135,10 @@ def replay(case):
 
 
 def check_witness(w):
+    if w['mode'] == 'greedy':
+        out, bad = _greedy(w)
+        exp = [[int(x) for x in line] for line in w['expect']]
+        return {'match': not bad and out == exp, 'got': out, 'bad': bad[:2]}
     if w['mode'] == 'postprocess':
         out, bad = _post(w)
         return {'match': bad is None and out == [int(x) for x in w['expect']], 'got': out}
